@@ -108,6 +108,10 @@ type Result struct {
 	Nontrivial  int            `json:"nontrivial"`
 	Tasks       int            `json:"goroutines_simulated"`
 	WallS       float64        `json:"wall_s"`
+	// Unsupported: synchronisation moq's code used that the simulator does not own
+	Unsupported []string `json:"unsupported,omitempty"`
+	// Signals: observations that are not violations of the property checked
+	Signals map[string]int `json:"signals,omitempty"`
 }
 
 var newFn NewFunc
@@ -158,13 +162,42 @@ func generate(c *Cell, tp *tape.Tape, clockDays int) (out []byte) {
 		for _, v := range sim.Viol {
 			vs = append(vs, v.Class+": "+v.Detail)
 		}
+		noteUnsupported(sim)
 		return []byte("STUCK: " + strings.Join(vs, "; "))
 	}
+	noteUnsupported(sim)
 	tasksSpawned += len(sim.Tasks()) - 1
 	return out
 }
 
+func noteUnsupported(sim *simrt.Sim) {
+	for _, v := range sim.Viol {
+		if v.Class == "unsupported" && len(unsupportedSeen) < 5 {
+			unsupportedSeen = append(unsupportedSeen, v.Detail)
+		}
+	}
+}
+
 var tasksSpawned int
+
+// unsupportedSeen collects what moq's code used that the simulator does not
+// own (sync.Cond, ...): results obtained under it say nothing about moq.
+var unsupportedSeen []string
+
+// same compares two generation results: outputs byte for byte; failures only
+// as failures of the same kind (the wording of an error message is a
+// diagnostic, not output, and may well list things in map order).
+func same(a, b []byte) bool {
+	norm := func(x []byte) []byte {
+		for _, p := range []string{"ERROR: ", "PANIC: ", "STUCK"} {
+			if bytes.HasPrefix(x, []byte(p)) {
+				return []byte(p)
+			}
+		}
+		return x
+	}
+	return bytes.Equal(norm(a), norm(b))
+}
 
 func firstDiff(a, b []byte) string {
 	la, lb := bytes.Split(a, []byte("\n")), bytes.Split(b, []byte("\n"))
@@ -236,7 +269,7 @@ func workerMain(args []string) {
 		}
 	}
 	start := time.Now()
-	res := &Result{Prop: *prop, Sites: map[string]int{}, Unowned: map[string]int{}, Faults: map[string]int{}}
+	res := &Result{Prop: *prop, Sites: map[string]int{}, Unowned: map[string]int{}, Faults: map[string]int{}, Signals: map[string]int{}}
 	sigs := map[uint64]struct{}{}
 	dumped := map[string]string{}
 	for i := *shard; i < len(cells); i += *nshards {
@@ -257,6 +290,7 @@ func workerMain(args []string) {
 	}
 	simhook.Install(nil)
 	res.Tasks = tasksSpawned
+	res.Unsupported = unsupportedSeen
 	res.WallS = time.Since(start).Seconds()
 	keys := make([]uint64, 0, len(sigs))
 	for k := range sigs {
@@ -315,9 +349,9 @@ func checkC14(c *Cell, seed uint64, orders int, tier, out string, res *Result, s
 			Findings: []Finding{{Prop: "C14", Class: class, Detail: detail}}, OrigTape: len(tp)}
 		// minimise the order tape towards the identity
 		min, execs := minimiseTape(tp, func(t []int) bool {
-			return !bytes.Equal(generate(c, tape.Replay(t), days), ref)
+			return !same(generate(c, tape.Replay(t), days), ref)
 		})
-		if days != 0 && !bytes.Equal(generate(c, tape.Replay(min), 0), ref) {
+		if days != 0 && !same(generate(c, tape.Replay(min), 0), ref) {
 			days = 0
 		}
 		rp.Tape, rp.Shrink, rp.ClockDays = min, execs, days
@@ -329,7 +363,7 @@ func checkC14(c *Cell, seed uint64, orders int, tier, out string, res *Result, s
 		os.WriteFile(name, data, 0o644)
 		res.Violations = append(res.Violations, name)
 	}
-	if !bytes.Equal(again, ref) {
+	if !same(again, ref) {
 		report("differs-on-repetition", nil, 0, again)
 		return
 	}
@@ -346,7 +380,7 @@ func checkC14(c *Cell, seed uint64, orders int, tier, out string, res *Result, s
 			sigs[hashInts(fnvs(c.ID), tp.Out)] = struct{}{}
 			res.Nontrivial++
 		}
-		if !bytes.Equal(got, ref) {
+		if !same(got, ref) {
 			report("order-or-clock-dependent-output", tp.Out, days, got)
 			break
 		}
@@ -354,7 +388,7 @@ func checkC14(c *Cell, seed uint64, orders int, tier, out string, res *Result, s
 	// fresh generator instances that coexist: another Mocker with different
 	// options is created between New and Mock; and two Mockers generate
 	// concurrently (two simulated tasks, writers that yield mid-write)
-	if got := interleaved(c, nil); !bytes.Equal(got, ref) {
+	if got := interleaved(c, nil); !same(got, ref) {
 		report("depends-on-other-generator-instances", nil, 0, got)
 		return
 	}
@@ -375,8 +409,11 @@ func checkC14(c *Cell, seed uint64, orders int, tier, out string, res *Result, s
 		res.Generations += 2
 		res.Nontrivial++
 		sigs[hashInts(fnvs(c.ID)^77, tp.Out)] = struct{}{}
-		if !bytes.Equal(a, ref) || !bytes.Equal(b, refD) {
-			reportConc(c, d, seed, tier, out, res, ref, refD, tp.Out)
+		if !same(a, ref) || !same(b, refD) {
+			// the property speaks of fresh instances, not of instances used at
+			// the same time: a signal, not a verdict (instances created one after
+			// the other are covered by the interleaved generation above)
+			res.Signals["concurrent-instances-interfere"]++
 			break
 		}
 	}
@@ -611,12 +648,22 @@ func (w *faultWriter) Write(p []byte) (int, error) {
 func runWriter(c *Cell, names []string, plan WriterPlan) (w *faultWriter, err error, panicked string) {
 	w = &faultWriter{plan: plan}
 	simhook.Install(nil)
-	defer func() {
-		if r := recover(); r != nil {
-			panicked = fmt.Sprint(r)
-		}
-	}()
-	err = genFn(c.config(), w, names)
+	// as the first task of a (canonically scheduled) simulation: moq's code may
+	// use sync or start goroutines, which exist only inside one
+	sim := simrt.New(tape.Replay(nil), simrt.Strategy{})
+	sim.MaxEvents = 2000000
+	sim.Go("moq", func() {
+		defer func() {
+			if r := recover(); r != nil {
+				panicked = fmt.Sprint(r)
+			}
+		}()
+		err = genFn(c.config(), w, names)
+	})
+	if !sim.Run() && panicked == "" {
+		panicked = "STUCK"
+	}
+	noteUnsupported(sim)
 	return
 }
 
